@@ -52,22 +52,49 @@ static bool g_bound_hit = false;
 static volatile int g_outcome_fail = 0, g_yield = 0;
 static volatile int g_aes_entries = 0, g_sha_entries = 0, g_tests_done = 0, g_work_before_done = 0, g_runner = -1;
 static volatile uint64_t g_sink = 0;
+// The wrappers run the REAL self-test bodies (so that anything those bodies do to the protocol state is part of the
+// history), then the generated yield points, and overlay the generated outcome.  Under the single-step engine the real
+// body executes as one atomic scheduling step with the trap flag off (tens of thousands of instructions otherwise).
+extern "C" int __real__aes_self_tests(void);
+extern "C" int __real__sha_self_tests(void);
+static volatile int g_single_step = 0, g_notrace = 0, g_real_bodies = 1;
+static thread_local int t_in_body = 0;
+static int call_body(int (*f)(void))
+{
+        if (!g_real_bodies) return 0;
+        t_in_body = 1;
+        int r;
+        if (g_single_step) {
+                g_notrace = 1;
+                __asm__ volatile("lea -128(%%rsp), %%rsp\n\tpushfq\n\tandq $~0x100, (%%rsp)\n\tpopfq\n\tlea 128(%%rsp), %%rsp" ::: "memory", "cc");
+                r = f();
+                g_notrace = 0;
+                __asm__ volatile("lea -128(%%rsp), %%rsp\n\tpushfq\n\torq $0x100, (%%rsp)\n\tpopfq\n\tlea 128(%%rsp), %%rsp" ::: "memory", "cc");
+        } else {
+                r = f();
+        }
+        t_in_body = 0;
+        return r;
+}
 extern "C" int __wrap__aes_self_tests(void)
 {
         __atomic_fetch_add(&g_aes_entries, 1, __ATOMIC_SEQ_CST);
         g_runner = g_cur;
+        int r = call_body(__real__aes_self_tests);
         for (int i = 0; i < g_yield; i++) g_sink++;
-        return g_outcome_fail;
+        return r | g_outcome_fail;
 }
 extern "C" int __wrap__sha_self_tests(void)
 {
         __atomic_fetch_add(&g_sha_entries, 1, __ATOMIC_SEQ_CST);
+        int r = call_body(__real__sha_self_tests);
         for (int i = 0; i < g_yield; i++) g_sink++;
         g_tests_done = 1;
-        return 0;
+        return r;
 }
 extern "C" void __wrap__sha1_ctx_mgr_init(void *mgr)
 {
+        if (t_in_body) { __real__sha1_ctx_mgr_init(mgr); return; } // the SHA self tests' own manager
         // "cryptographic work" of the cheap approved entry point: must not start before the self tests finished and passed
         if (!g_tests_done || g_outcome_fail) __atomic_fetch_add(&g_work_before_done, 1, __ATOMIC_SEQ_CST);
         (void) mgr;
@@ -168,6 +195,11 @@ static int pick_next(bool cur_yielded)
 static void on_trap(int, siginfo_t *, void *uc_)
 {
         ucontext_t *uc = (ucontext_t *) uc_;
+        if (g_cur >= 0 && g_notrace) {
+                // the running logical thread is about to execute a real self-test body: let it run untraced (one atomic step)
+                uc->uc_mcontext.gregs[REG_EFL] &= ~0x100;
+                return;
+        }
         if (g_cur < 0) {
                 memcpy(g_main_gregs, uc->uc_mcontext.gregs, sizeof(gregset_t));
                 memcpy(&g_main_fp, uc->uc_mcontext.fpregs, sizeof g_main_fp);
@@ -392,7 +424,9 @@ static bool run(const Case &c, pbt::Ctx &ctx)
         }
         asm_set_self_tests_status(2); // SELF_TEST_NOT_DONE
         g_cur = -1;
+        g_single_step = 1;
         raise(SIGTRAP); // enters the scheduler; returns here when every logical thread finished
+        g_single_step = 0;
         asm_set_self_tests_status(0);
         g_case = nullptr;
 
@@ -491,6 +525,7 @@ int main(int argc, char **argv)
                 sa.sa_flags = SA_SIGINFO | SA_ONSTACK;
                 sigemptyset(&sa.sa_mask);
                 sigaction(SIGTRAP, &sa, nullptr);
+                g_real_bodies = ctx.optnum("real_bodies", 1) != 0;
                 g_enum = ctx.optnum("enum", 0) != 0;
                 if (g_enum) {
                         auto add = [&](int n, std::vector<int> kinds, int fail, int yield) {
